@@ -33,4 +33,8 @@ CHECKS = {
         technique="property-based testing: Hypothesis-generated NpuOperation lists with shared register history, round trip through an independent stateful decoder (field-by-field differential against the operation specification); same comparison on operation lists captured from generated compiled networks",
         text="Lists of 1-8 legal operations of all five kinds are built so that consecutive operations share most register values; the emitted words are decoded by lib/csdec.py with a register file that persists across operations, and every consumed field of every operation must equal the value derived from the operation given (addresses incl. bits 32-39, tiles, strides, precision, kernel, pads, weight/scale ranges per core, activation, scaling, block config), reserved bits zero, alignment rules, waits adjacent to their operation, exactly one stop.",
         note="trusted base: lib/csdec.py field table (DESIGN.md Appendix A), vendor/npu_regs.py opcode numbers, lib/tflref.py for scale registers"),
+    "C15": dict(
+        technique="property-based testing: Hypothesis-generated operator descriptors x 6 accelerators through the public block-config query; every offered configuration checked by an independent SHRAM validity predicate on the registers decoded from the stream the generator emits for it (acceptance + round trip)",
+        text="For thousands of generated operators the query's configurations are checked for micro-block multiples and the maximum block, then given back to npu_generate_register_command_stream (must be accepted); IB_END/IB_START2/AB_START/ACC_FORMAT are decoded from the emitted words and must describe ordered, non-overlapping partitions inside the bank count that can double-buffer the IFM block (own receptive-field formula) and the accumulators at the pinned bank granules.",
+        note="trusted base: SHRAM description pinned in lib/hw.py (bank counts, granule table, LUT placement, Conv1D rule), lib/csdec.py"),
 }
